@@ -58,6 +58,9 @@ func (db *GoLevelDB) Get(key []byte) ([]byte, error) {
 
 // Has implements corestore.KVStore.
 func (db *GoLevelDB) Has(key []byte) (bool, error) {
+	if len(key) == 0 {
+		return false, errors.New("key is empty")
+	}
 	return db.db.Has(key, nil)
 }
 
